@@ -128,4 +128,158 @@ theorem readByte_none (r : Rdr) (S L : Nat) (hK : r.K S L) (h : r.readByte = non
       exact ⟨by rw [← e1, ← d], rfl, k, e2, d.symm⟩
   | cons c t => simp [hb] at h
 
+theorem errIsEOF_iff (r : Rdr) (S L : Nat) (e : EndK) (hK : r.K S L) (hb : r.buf = []) (hr : r.rest = []) :
+    r.errIsEOF e = (decide (S ≥ L) || e == .eof) := by
+  obtain ⟨k1, k2⟩ := hK
+  have ht : (r.segs.flatten).take r.N = [] := by simpa [Rdr.rest, hb] using hr
+  have hcase : r.N = 0 ∨ r.segs.flatten = [] := by
+    rcases Nat.eq_zero_or_pos r.N with h | h
+    · exact Or.inl h
+    · right
+      cases hf : r.segs.flatten with
+      | nil => rfl
+      | cons a t =>
+        rw [hf] at ht
+        obtain ⟨m, hm⟩ : ∃ m, r.N = m + 1 := ⟨r.N - 1, by omega⟩
+        rw [hm] at ht; simp at ht
+  unfold Rdr.errIsEOF
+  by_cases h0 : r.N = 0
+  · have : S ≥ L := by omega
+    simp [h0, this]
+  · have hf : r.segs.flatten = [] := by rcases hcase with h | h; exact absurd h h0; exact h
+    have : ¬ S ≥ L := by rw [hf] at k2; simp at k2; omega
+    simp [h0, this]
+
+theorem prefix_getD (b y : Bytes) (i : Nat) (h : i < b.length) : (b ++ y).getD i 0 = b.getD i 0 := by
+  simp [List.getD_eq_getElem?_getD, List.getElem?_append_left h]
+
+/-- the same tail computed from the buffer after `Peek(len)` -/
+theorem tail_buf_eq (b13 b14 : UInt8) (len : Nat) (buf Y : Bytes) (hl : len ≤ buf.length)
+    (hv : b13 ≠ 0x20 → validLen b14 len = true) :
+    tailFree b13 b14 len (buf ++ Y) = tailFree b13 b14 len buf := by
+  unfold tailFree
+  have h1 : ¬ (buf ++ Y).length < len := by simp; omega
+  have h2 : ¬ buf.length < len := by omega
+  simp only [h1, h2, if_false]
+  by_cases c : b13 = 0x20
+  · simp [c]
+  · simp only [c, if_false]
+    have hvl := hv c
+    by_cases c4 : b14 &&& 0xF0 = 0x10
+    · have hge : 12 ≤ len := by simpa [validLen, c4] using hvl
+      rw [if_pos c4, if_pos c4]
+      rw [List.take_append_of_le_length (by omega), List.drop_append_of_le_length (by omega),
+        List.take_append_of_le_length (by simp; omega),
+        prefix_getD _ _ 8 (by omega), prefix_getD _ _ 9 (by omega), prefix_getD _ _ 10 (by omega), prefix_getD _ _ 11 (by omega)]
+    · by_cases c6 : b14 &&& 0xF0 = 0x20
+      · have hge : 36 ≤ len := by simpa [validLen, c4, c6] using hvl
+        rw [if_neg c4, if_neg c4, if_pos c6, if_pos c6]
+        rw [List.take_append_of_le_length (by omega), List.drop_append_of_le_length (by omega),
+          List.take_append_of_le_length (by simp; omega),
+          prefix_getD _ _ 32 (by omega), prefix_getD _ _ 33 (by omega), prefix_getD _ _ 34 (by omega), prefix_getD _ _ 35 (by omega)]
+      · rw [if_neg c4, if_neg c4, if_neg c6, if_neg c6]
+
+theorem parseV2_cons4 (b13 b14 hi lo : UInt8) (X : Bytes) (a : Bool) :
+    parseV2 (sigV2 ++ b13 :: b14 :: hi :: lo :: X) a =
+      if b13 ≠ 0x20 ∧ b13 ≠ 0x21 then .err
+      else if ¬ supportedFam b14 ∧ ¬ (b13 = 0x20 ∧ b14 = 0x00) then .err
+      else if ¬ b13 = 0x20 ∧ ¬ validLen b14 (be16 hi lo) then .err
+      else if be16 hi lo > bufSize then .err
+      else tailFree b13 b14 (be16 hi lo) X := by
+  simp only [parseV2, sigV2, tailFree]
+  simp
+
+theorem parseV2_len0 (a : Bool) : parseV2 (sigV2 ++ []) a = .err := by simp [parseV2, sigV2]
+theorem parseV2_len1 (b13 : UInt8) (a : Bool) :
+    parseV2 (sigV2 ++ [b13]) a =
+      if b13 ≠ 0x20 ∧ b13 ≠ 0x21 then .err else if b13 = 0x20 ∧ a = true then .sock 13 else .err := by
+  simp [parseV2, sigV2]
+theorem parseV2_len2 (b13 b14 : UInt8) (a : Bool) : parseV2 (sigV2 ++ [b13, b14]) a = .err := by
+  simp only [parseV2, sigV2]; simp
+theorem parseV2_len3 (b13 b14 hi : UInt8) (a : Bool) : parseV2 (sigV2 ++ [b13, b14, hi]) a = .err := by
+  simp only [parseV2, sigV2]; simp
+
+/-- **C46_chunking_independent, v2**: on ANY segmentation of the connection (reader `r0` after the successful
+    `Peek(12)`), `parseVersion2` over the bufio reader returns exactly what the chunk-free model returns on the
+    visible byte string `r0.rest`. -/
+theorem parseV2Seg_result (r0 : Rdr) (e : EndK) (S L : Nat) (hK : r0.K S L) (hsig : r0.buf.take 12 = sigV2) :
+    (parseV2Seg r0 e).1 = parseV2 r0.rest (decide (S ≥ L) || e == .eof) := by
+  have hbuf : r0.buf = sigV2 ++ r0.buf.drop 12 := by rw [← hsig, List.take_append_drop]
+  have hrest : r0.rest = sigV2 ++ ({ r0 with buf := r0.buf.drop 12 } : Rdr).rest := by
+    simp only [Rdr.rest]; rw [← List.append_assoc, ← hbuf]
+  have hK1 : ({ r0 with buf := r0.buf.drop 12 } : Rdr).K S L := hK
+  rw [hrest]
+  unfold parseV2Seg
+  generalize ({ r0 with buf := r0.buf.drop 12 } : Rdr) = r1 at hK1 ⊢
+  cases h1 : r1.readByte with
+  | none =>
+    obtain ⟨e1, _⟩ := readByte_none r1 S L hK1 h1
+    simp only [h1, e1, parseV2_len0]
+  | some p1 =>
+    obtain ⟨b13, r2⟩ := p1
+    obtain ⟨e1, _, hK2⟩ := readByte_some r1 S L hK1 b13 r2 h1
+    simp only [h1, e1]
+    cases h2 : r2.readByte with
+    | none =>
+      obtain ⟨e2, hb2, hK2', _, hr2⟩ := readByte_none r2 S L hK2 h2
+      have ha := errIsEOF_iff (r2.need 1) S L e hK2' hb2 hr2
+      simp only [h2, e2, ha, parseV2_len1]
+      by_cases c1 : b13 ≠ 0x20 ∧ b13 ≠ 0x21
+      · simp [c1]
+      · simp only [c1, if_false]
+    | some p2 =>
+      obtain ⟨b14, r3⟩ := p2
+      obtain ⟨e2, _, hK3⟩ := readByte_some r2 S L hK2 b14 r3 h2
+      simp only [h2, e2]
+      cases h3 : r3.readByte with
+      | none =>
+        obtain ⟨e3, _⟩ := readByte_none r3 S L hK3 h3
+        simp only [h3, e3, parseV2_len2]
+        by_cases c1 : b13 ≠ 0x20 ∧ b13 ≠ 0x21
+        · simp [c1]
+        · simp only [c1, if_false]; split <;> rfl
+      | some p3 =>
+        obtain ⟨hi, r4⟩ := p3
+        obtain ⟨e3, _, hK4⟩ := readByte_some r3 S L hK3 hi r4 h3
+        simp only [h3, e3]
+        cases h4 : r4.readByte with
+        | none =>
+          obtain ⟨e4, _⟩ := readByte_none r4 S L hK4 h4
+          simp only [h4, e4, parseV2_len3]
+          by_cases c1 : b13 ≠ 0x20 ∧ b13 ≠ 0x21
+          · simp [c1]
+          · simp only [c1, if_false]; split <;> rfl
+        | some p4 =>
+          obtain ⟨lo, r5⟩ := p4
+          obtain ⟨e4, _, hK5⟩ := readByte_some r4 S L hK4 lo r5 h4
+          simp only [h4, e4, parseV2_cons4]
+          by_cases c1 : b13 ≠ 0x20 ∧ b13 ≠ 0x21
+          · simp [c1]
+          · simp only [c1, if_false]
+            by_cases c2 : ¬ supportedFam b14 ∧ ¬ (b13 = 0x20 ∧ b14 = 0x00)
+            · simp [c2]
+            · simp only [c2, if_false]
+              by_cases c3 : ¬ b13 = 0x20 ∧ ¬ validLen b14 (be16 hi lo)
+              · simp [c3]
+              · simp only [c3, if_false]
+                by_cases c4 : be16 hi lo > bufSize
+                · simp [c4]
+                · simp only [c4, if_false]
+                  obtain ⟨er, _, _, d⟩ := rdr_need_spec r5 (be16 hi lo) (by omega) S L hK5
+                  have hv : b13 ≠ 0x20 → validLen b14 (be16 hi lo) = true := by
+                    intro hb
+                    cases hvv : validLen b14 (be16 hi lo)
+                    · exact absurd ⟨hb, by simp [hvv]⟩ c3
+                    · rfl
+                  by_cases c5 : (r5.need (be16 hi lo)).buf.length < be16 hi lo
+                  · simp only [c5, if_true]
+                    rcases d with d | d
+                    · omega
+                    · have : r5.rest.length < be16 hi lo := by rw [← er, ← d]; exact c5
+                      simp [tailFree, this]
+                  · simp only [c5, if_false]
+                    have hsplit : r5.rest = (r5.need (be16 hi lo)).buf ++
+                        (((r5.need (be16 hi lo)).segs.flatten).take (r5.need (be16 hi lo)).N) := by rw [← er]; rfl
+                    rw [hsplit, tail_buf_eq _ _ _ _ _ (by omega) hv]
+
 end BfeVerif.C46
